@@ -123,6 +123,48 @@ def check_vincdir(case):
                    expected=want, observed={"url": url, "json": got}, bucket="vincdir values")
 
 
+def check_chain(case):
+    """A traverse through the service: the point /vincdir answers with (JSON values exactly as returned, in the notation asked for)
+    becomes point 2 of a /vincinv query and the start of the next /vincdir query.  The library does not wrap longitudes, so a line
+    across the 180 deg meridian hands on a longitude beyond 180: still a query the library answers, hence one the endpoints answer
+    with the library's values."""
+    gd = repo.mod("geodepy.geodesy")
+    an = repo.mod("geodepy.angles")
+    t = case["to"] or "dd"
+    params = {k: _val(case, k) for k in ("lat1", "lon1", "azimuth1to2")}
+    params.update(ell_dist=case["ell_dist"], from_angle_type=case["from"], to_angle_type=t)
+    url1, first = _get("/vincdir", params, case.get("lit", "repr"), case.get("order", 0))
+    if not isinstance(first, dict) or not all(isinstance(first.get(k), (int, float)) for k in ("lat2", "lon2", "azimuth2to1")):
+        raise Fail("/vincdir did not answer with numbers for lat2, lon2, azimuth2to1", observed={"url": url1, "json": first})
+    conv_in = an.hp2dec if t == "dms" else (lambda x: x)
+    conv_out = an.dec2hp if case["from"] == "dms" else (lambda x: x)          # the second leg answers in the first leg's input notation
+    second = dict(case, **{"from": t})                                        # point 1 as held in the notation of the second query
+    p1 = {k: _val(second, k) for k in ("lat1", "lon1")}
+    dd = [conv_in(p1["lat1"]), conv_in(p1["lon1"]), conv_in(first["lat2"]), conv_in(first["lon2"])]
+    if abs(first["lon2"]) > 180.0:
+        metric("handed-on longitude beyond 180", 1)
+    a, b = math.radians(dd[0]), math.radians(dd[2])
+    dl = math.radians(dd[3] - dd[1])
+    h = math.sin((b - a) / 2) ** 2 + math.cos(a) * math.cos(b) * math.sin(dl / 2) ** 2
+    if math.degrees(2 * math.asin(min(1.0, math.sqrt(h)))) <= 178.0:
+        dist, a12, a21 = gd.vincinv(*dd)
+        want = {"ell_dist": dist, "azimuth1to2": conv_out(a12), "azimuth2to1": conv_out(a21)}
+        q = {"lat1": p1["lat1"], "lon1": p1["lon1"], "lat2": first["lat2"], "lon2": first["lon2"], "from_angle_type": t,
+             "to_angle_type": case["from"] or "dd"}
+        url2, got = _get("/vincinv", q, "repr", case.get("order", 0))
+        if got != want:
+            raise Fail("/vincinv, asked about the point /vincdir returned, does not return exactly the library's values",
+                       expected=want, observed={"url": url2, "json": got, "first": url1}, bucket="chain vincdir -> vincinv")
+    lat3, lon3, az3 = gd.vincdir(conv_in(first["lat2"]), conv_in(first["lon2"]), conv_in(first["azimuth2to1"]), case["ell_dist"])
+    want = {"lat2": conv_out(lat3), "lon2": conv_out(lon3), "azimuth2to1": conv_out(az3)}
+    q = {"lat1": first["lat2"], "lon1": first["lon2"], "azimuth1to2": first["azimuth2to1"], "ell_dist": case["ell_dist"],
+         "from_angle_type": t, "to_angle_type": case["from"] or "dd"}
+    url3, got = _get("/vincdir", q, "repr", case.get("order", 0))
+    if got != want:
+        raise Fail("/vincdir, started from the point and azimuth /vincdir returned, does not return exactly the library's values",
+                   expected=want, observed={"url": url3, "json": got, "first": url1}, bucket="chain vincdir -> vincdir")
+
+
 def check_index(case):
     c = _client()
     app = _APP[1]
@@ -204,13 +246,19 @@ def inv_cases(draw):
 
 
 @st.composite
-def dir_cases(draw):
+def dir_cases(draw, near_180=False):
     c = {"from": draw(atype), "to": draw(atype), "lit": draw(lit_s), "order": draw(order_s),
          "ell_dist": draw(st.one_of(S.floats(0.0, 2e7), S.log_uniform(1e-3, 2e7), st.sampled_from([0.0, 54972.271, 1e7]),
                                     st.integers(0, 20000000).map(float)))}
     c["lat1"] = draw(_angle(90.0, 89, extra=[-37.57037203, 90.0]))
     c["lon1"] = draw(_angle(180.0, 179, extra=[144.25295244, -180.0]))
     c["azimuth1to2"] = draw(_angle(360.0, 359, signed=False, extra=[90.0, 306.520537, 360.0]))
+    if near_180 and draw(st.integers(0, 2)) == 0:
+        # a start point next to the 180 deg meridian (either side), so that lines cross it
+        sg = draw(st.booleans())
+        x = draw(S.floats(178.0, 180.0))
+        c["lon1"] = [-x if sg else x, [sg, draw(st.integers(178, 179)), draw(st.integers(0, 59)), draw(st.integers(0, 60 * 10 ** 9 - 1))]]
+        c["lat1"] = [max(-80.0, min(80.0, c["lat1"][0])), [c["lat1"][1][0], min(c["lat1"][1][1], 79)] + list(c["lat1"][1][2:])]
     return c
 
 
@@ -268,6 +316,10 @@ SUBCHECKS = [
     SubCheck("vincdir_fill", check_vincdir, enumerate=S.fill(2021, 5, _dir_fill, 12000, 240000), nontrivial=_nt, classes=_classes,
              shards_quick=12, shards_thorough=16,
              rule="low-discrepancy fill of start point x azimuth x distance (uniform / log-uniform) x the nine angle-type combinations: 12 000 / 240 000 requests"),
+    SubCheck("traverse_through_the_service", check_chain, strategy=dir_cases(near_180=True), nontrivial=_nt, classes=_classes, quick=1200,
+             thorough=60000, shards_quick=3, shards_thorough=12,
+             rule="the JSON answer of /vincdir handed on as point 2 of /vincinv and as start + azimuth of the next /vincdir, in the notation "
+                  "it was returned in; a third of the lines start within 2 deg of the 180 deg meridian, so handed-on longitudes exceed 180"),
     SubCheck("index_route", check_index, enumerate=enumerate_index, shards_quick=1, shards_thorough=1, exhaustive="both",
              rule="GET / lists every routed endpoint (complete: the URL map is enumerated)"),
 ]
